@@ -4,6 +4,8 @@ Space: kinematic trees with <=3 bodies (every DFS-ordered tree, every body eithe
 parent, optional world-attached geom), one sphere per body, all spheres overlapping (geometry always in
 contact, so the reported pair set is exactly the filter's output) x contype/conaffinity bitmasks x
 <exclude> on each body pair x explicit <pair> on each geom pair x FILTERPARENT on/off.
+Families A and C are repeated with a collision sensor (distance / normal / fromto) on every geom pair: filtered pairs then stay in
+the contact array as sensor-only contacts and must not carry ContactType.CONSTRAINT.
 Oracles: (1) a short Python predicate written from the property statement, (2) mj_collision's pair set and
 contact parameters.
 """
